@@ -251,6 +251,24 @@ def analyse():
                                                                     "why": "signal(s) %s are not registered (registered numbers: %s)" % (missing, regvals)},
                                "note": "registered signal numbers: %s" % regvals,
                                "expect": {"kind": "signal", "missing": missing}})
+        # every other signal-hook registration in main: handlers that restore or emulate the default action
+        # make a later signal terminate the process
+        others = []
+        for b in order:
+            mm = re.search(r"= ((?:[\w]+::)*(?:register_conditional_default|register_conditional_shutdown|emulate_default_handler|"
+                           r"register_sigaction|register_signal_unchecked|register_unchecked|raise|abort))(?:::<.*?>)?\(", blocks[b].term)
+            if mm:
+                others.append(mm.group(1))
+            mm = re.search(r"= (signal_hook::[\w:]+?)(?:::<.*?>)?\(", blocks[b].term)
+            if mm and mm.group(1) != "signal_hook::flag::register" and mm.group(1) not in others:
+                others.append(mm.group(1))
+        out["results"].append({"name": "m-c18-only-flag-handlers", "verdict": "holds" if not others else "violated",
+                               "seconds": 0.0, "twin": "n/a",
+                               "bound": "every call into signal_hook in main's MIR",
+                               "witness": None if not others else {"text": None, "calls": others,
+                                                                   "why": "main also installs %s: a further signal is no longer just recorded" % others},
+                               "note": "signal-hook calls other than flag::register: %s" % others,
+                               "expect": {"kind": "double_signal"}})
     except MirError as e:
         out["errors"].append("m-c18-signals: %s" % e)
     out["wall_s"] = round(time.time() - t0, 2)
